@@ -33,6 +33,7 @@ type Solver struct {
 	Queries   int
 	Definite  int
 	Unknowns  int
+	Retried   int
 	Errors    int
 	SolveTime time.Duration
 	log       io.Writer
@@ -386,5 +387,59 @@ func (s *Solver) CheckWithModel(extra *Term, names []string, sorts []Sort) (Resu
 		}
 	}
 	s.Pop(1)
+	return r, model
+}
+
+// OneShot decides the conjunction of the given terms in a fresh context
+// ((reset) first), so that z3 uses its full preprocessing/bit-blasting pipeline
+// rather than the incremental core. Returns values of names on Sat.
+func (s *Solver) OneShot(terms []*Term, names []string, sorts []Sort) (Result, map[string]uint64) {
+	ds := newDeclSet()
+	var asserts []string
+	for _, t := range terms {
+		asserts = append(asserts, "(assert "+PrintTerm(t, ds)+")")
+	}
+	s.Queries++
+	t0 := time.Now()
+	s.send("(reset)")
+	if strings.HasPrefix(s.backend, "z3") {
+		s.send(fmt.Sprintf("(set-option :timeout %d)", s.timeoutMs))
+		s.send("(set-option :produce-models true)")
+	} else {
+		s.send("(set-logic ALL)")
+	}
+	for i, n := range names {
+		if _, ok := ds.vars[n]; !ok {
+			ds.vars[n] = sorts[i]
+			ds.out = append(ds.out, fmt.Sprintf("(declare-const %s %s)", smtName(n), sorts[i]))
+		}
+	}
+	for _, d := range ds.out {
+		s.send(d)
+	}
+	for _, a := range asserts {
+		s.send(a)
+	}
+	s.send("(check-sat)")
+	r := s.readResult()
+	var model map[string]uint64
+	if r == Sat && names != nil {
+		if len(names) == 0 {
+			model = map[string]uint64{}
+		} else {
+			save := s.decls
+			s.decls = ds
+			if vals, err := s.Values(names, sorts); err == nil {
+				model = vals
+			}
+			s.decls = save
+		}
+	}
+	s.SolveTime += time.Since(t0)
+	if r == Unknown {
+		s.Unknowns++
+	} else {
+		s.Definite++
+	}
 	return r, model
 }
